@@ -23,7 +23,9 @@ FAMILY = {
             "tracked_keys_respect_included_excluded", "stored_chain_is_thinned_per_iteration_states",
             "stored_chain_empty_iff_nothing_kept", "transition_infos_for_every_transition",
             "kernel_states_for_every_transition", "stored_kernel_states_are_those_after_the_transition", "posterior_accessor_returns_exactly_posterior_epochs", "stored_results_unchanged_by_reading_and_summarising", "computed_position_entries_are_computed_from_the_chains_own_state", "results_object_obtained_earlier_shows_what_was_sampled_since", "results_written_to_disk_and_read_back_show_the_same_chains",
-            "generated_quantities_once_per_stored_iteration_from_post_transition_state"},
+            "generated_quantities_once_per_stored_iteration_from_post_transition_state",
+            # (a sampling call that raises where the schedule is fine records nothing at all)
+            "sample_all_epochs_does_not_raise", "sample_next_raises_iff_no_epoch_left_or_duration_not_a_multiple_of_the_chunk"},
     "C09": {"starts_from_state_left_by_predecessor", "blocks_only_written_by_their_own_kernel",
             "probe_wrote_expected_tag"},
     "C10": {"fresh_random_key_for_every_call", "keys_distinct_across_chains_and_calls",
